@@ -379,7 +379,7 @@ if bad:
 def run(ctx):
     global TIMEOUT_MS
     thorough = ctx.tier == "thorough"
-    TIMEOUT_MS = 60000 if thorough else 10000
+    TIMEOUT_MS = 15000 if thorough else 10000
     rng = random.Random(ctx.seed)
     v0, v1 = V0(), V1()
     v01 = v0 + v1
@@ -414,7 +414,7 @@ def run(ctx):
         v2 = [("cross", u, v) for u, v in itertools.product(v01, repeat=2) if u in v1 or v in v1] + \
              [("add", u, v) for u in v1 for v in v1 if rng.random() < 0.05] + [("sc", "k", x) for x in v1]
         d3 = []
-        N = 60000
+        N = 20000
         for _ in range(N):
             kind = rng.choice(["dot", "cross", "mixed", "norm", "dot", "cross"])
             x = rng.choice(v2)
@@ -456,7 +456,7 @@ def run(ctx):
                              "VectorCross._eval_vector_dot", "VectorCross._eval_vector_cross", "_ordered_mul", "sort_with_sign",
                              "split_factor", "into_terms", "is_vector_expr", "*._eval_derivative", "AppliedVectorFunction._eval_derivative"]
     ctx.bounds = ["quick: all shapes of nesting depth <= 2 in auto mode (dot/cross/mixed/norm over V<=1 operands), depth<=1 + a third of depth 2 in doit mode",
-                  "thorough: both modes at depth <= 2, plus seed-sampled depth-3 shapes (60000 draws)",
+                  "thorough: both modes at depth <= 2, plus seed-sampled depth-3 shapes (20000 draws)",
                   "4 vector symbols, 3 vector functions, 2 scalar symbols, 1 scalar function",
                   f"z3 timeout {TIMEOUT_MS} ms per query; evaluation time limit {BUILD_TIMEOUT} s (termination)"]
     ctx.outside = ["deeper nesting than stated", "complex scalars", "vector functions of several arguments / chain rule (library raises NotImplementedError)",
